@@ -210,6 +210,73 @@ fn throttle_model(op: &Op, edge: Edge, script: &[(u64, N)]) -> Vec<Timed> {
   acc
 }
 
+/// exact sample(interval(w)) semantics: at every sampler tick the newest item
+/// not yet sampled is emitted; branches where an item coincides with a tick;
+/// a value still unsampled when the source completes may be dropped or flushed
+fn sample_model(w: u64, script: &[(u64, N)]) -> Vec<Timed> {
+  fn go(w: u64, script: &[(u64, N)], i: usize, next_tick: u64, stored: Option<V>, out: Timed, acc: &mut Vec<Timed>) {
+    if acc.len() > 256 {
+      return;
+    }
+    if i == script.len() {
+      let mut out = out;
+      if let Some(x) = stored {
+        out.push((next_tick, N::Next(x)));
+      }
+      acc.push(out);
+      return;
+    }
+    let (t, n) = &script[i];
+    if next_tick < *t {
+      // the tick comes first
+      let mut out = out;
+      let mut stored = stored;
+      if let Some(x) = stored.take() {
+        out.push((next_tick, N::Next(x)));
+      }
+      return go(w, script, i, next_tick + w, stored, out, acc);
+    }
+    if next_tick == *t {
+      // tie: tick first ...
+      let mut o2 = out.clone();
+      let mut s2 = stored.clone();
+      if let Some(x) = s2.take() {
+        o2.push((next_tick, N::Next(x)));
+      }
+      step(w, script, i, next_tick + w, s2, o2, acc);
+      // ... or the source event first (the tick then follows at the same instant)
+    }
+    step(w, script, i, next_tick, stored, out, acc);
+    fn step(w: u64, script: &[(u64, N)], i: usize, next_tick: u64, stored: Option<V>, mut out: Timed, acc: &mut Vec<Timed>) {
+      let (t, n) = &script[i];
+      match n {
+        N::Next(x) => go(w, script, i + 1, next_tick, Some(x.clone()), out, acc),
+        N::Complete => {
+          // unspecified: an unsampled value is dropped, or flushed with the completion
+          if let Some(x) = &stored {
+            let mut o2 = out.clone();
+            o2.push((*t, N::Next(x.clone())));
+            o2.push((*t, N::Complete));
+            acc.push(o2);
+          }
+          out.push((*t, N::Complete));
+          acc.push(out);
+        }
+        N::Err(e) => {
+          out.push((*t, N::Err(*e)));
+          acc.push(out);
+        }
+      }
+    }
+    let _ = n;
+  }
+  let mut acc = vec![];
+  go(w, script, 0, w, None, vec![], &mut acc);
+  acc.sort();
+  acc.dedup();
+  acc
+}
+
 fn item_ids(timed: &Timed) -> Vec<i64> {
   let mut v = vec![];
   for (_, n) in timed {
@@ -281,6 +348,10 @@ pub fn judge(c: &Case, o: &Result<Obs, String>) -> Option<(String, serde_json::V
     let allowed = match &c.op {
       Op::Debounce(d) => Some(debounce_model(*d * MS, &c.script)),
       Op::ThrottleTime(_, e) | Op::Throttle(_, e) => Some(throttle_model(&c.op, *e, &c.script)),
+      Op::Sample(ch) => match ch.src {
+        Src::Interval(w) if c.script.last().map_or(false, |(_, n)| n.is_terminal()) => Some(sample_model(w * MS, &c.script)),
+        _ => None,
+      },
       _ => None,
     };
     if let Some(allowed) = allowed {
